@@ -1,6 +1,6 @@
 ------------------------------ MODULE MC_Reader ------------------------------
 (* Exhaustive small-constant configuration of DeferredReader. *)
-EXTENDS DeferredReader
+EXTENDS DeferredReader, FiniteSets
 
 CONSTANTS N, MaxPre
 
@@ -9,4 +9,11 @@ Ident(n) == [i \in 1..n |-> i]
 \* every limit, both endings, every pre-buffered amount
 MCStreams == { <<Ident(N), lim, f, pre>> : lim \in 0..N, f \in BOOLEAN, pre \in 0..MaxPre }
 MCStreamsOk == { s \in MCStreams : s[4] <= s[2] }
+
+\* TLC normalises (sorts) set values lazily and in place; when 16 workers enumerate a not yet normalised
+\* constant set at the same time the enumeration can skip elements (observed: spurious refinement
+\* violations on the very first transition).  Taking the cardinality here normalises every set
+\* constant once, in the single start-up thread.
+ASSUME /\ Cardinality(ReqArgs) >= 0 /\ Cardinality(ChunkArgs) >= 0
+       /\ Cardinality(MCStreamsOk) >= 0 /\ Cardinality(MCStreams) >= 0
 =============================================================================
